@@ -7,6 +7,7 @@ package ir
 import (
 	"encoding/json"
 	"sort"
+	"strings"
 )
 
 // Scalar proto types.
@@ -44,6 +45,9 @@ type EnumValue struct {
 type Enum struct {
 	Name   string      `json:"name"`
 	Values []EnumValue `json:"values"`
+	// InDep: declared in the imported file <name>_dep.proto (same proto package, same Go package) instead of the
+	// file to generate.
+	InDep bool `json:"in_dep,omitempty"`
 }
 
 type Field struct {
@@ -70,6 +74,9 @@ type Message struct {
 	Name    string   `json:"name"`
 	Fields  []*Field `json:"fields"`
 	Comment Comments `json:"comment,omitempty"`
+	// InDep: declared in the imported file <name>_dep.proto (same proto package, same Go package); such a message
+	// only refers to messages and enums of that file, and is never a selected type.
+	InDep bool `json:"in_dep,omitempty"`
 }
 
 type File struct {
@@ -83,6 +90,26 @@ type File struct {
 	CastTypes map[string]string `json:"cast_types,omitempty"`
 	// CustomTypes declared in the struct package: name -> underlying Go type.
 	CustomTypes map[string]string `json:"custom_types,omitempty"`
+}
+
+// DepName is the name of the imported file that holds the InDep declarations.
+func (f *File) DepName() string {
+	return strings.TrimSuffix(f.Name, ".proto") + "_dep.proto"
+}
+
+// HasDep reports whether some declaration lives in the imported file.
+func (f *File) HasDep() bool {
+	for _, m := range f.Messages {
+		if m.InDep {
+			return true
+		}
+	}
+	for _, e := range f.Enums {
+		if e.InDep {
+			return true
+		}
+	}
+	return false
 }
 
 func (f *File) Msg(name string) *Message {
